@@ -211,9 +211,9 @@ def s3_receive(F, R, roles, h12, h10):
         R.check(bad is None, 'S3', '%s:lengths' % b['id'], where, 'returns (header size, used length - header size) or an error', 'receive length arithmetic: %s' % bad)
 
 
-def s4_custody(F, R, M, roles):
+def s4_custody(F, R, M, roles, rule='S4', only=None):
     if NET not in F.adts:
-        R.note('S4: %s not present in this configuration' % NET)
+        R.note('%s: %s not present in this configuration' % (rule, NET))
         return
     raw_ops = {b['id']: b['name'] for b in F.bodies.values() if b.get('impl_adt') == RAW and b['kind'] == 'AssocFn'}
     qids = set(roles) | set(b['id'] for b in queue_entry_points(F, M))
@@ -249,7 +249,7 @@ def s4_custody(F, R, M, roles):
                 if not (slot_ok and pop_ok and cmp_):
                     good = False
                     det = 'slot indexed by the peeked token=%s, pop_used with that token=%s, token compared with a buffer index field=%s' % (slot_ok, pop_ok, cmp_)
-            R.check(good, 'S4', '%s:take-by-token' % b['id'], where, 'buffer taken from the slot of the completed token and checked against its recorded index `%s`' % idx_field,
+            R.check(good, rule, '%s:take-by-token' % b['id'], where, 'buffer taken from the slot of the completed token and checked against its recorded index `%s`' % idx_field,
                     'receive does not take the buffer of the completed token: %s' % (det if not good and okp else 'no Ok path'))
     for b in F.bodies.values():
         if b.get('impl_adt') != NET or b['kind'] != 'AssocFn' or not b.get('pub'):
@@ -272,15 +272,15 @@ def s4_custody(F, R, M, roles):
                 if not adds or not slot or (idx_field and not rec):
                     good = False
                     det = 'add performed=%s, buffer stored in the slot of the new token=%s, token recorded in `%s`=%s' % (bool(adds), bool(slot), idx_field, bool(rec))
-            R.check(good, 'S4', '%s:store-by-new-token' % b['id'], where, 'recycled buffer stored in the slot of the new token, which is recorded in `%s`' % idx_field,
+            R.check(good, rule, '%s:store-by-new-token' % b['id'], where, 'recycled buffer stored in the slot of the new token, which is recorded in `%s`' % idx_field,
                     'recycle_rx_buffer breaks the token <-> buffer mapping that receive() relies on: %s' % det)
-        if b['name'] == 'can_recv':
+        if b['name'] == 'can_recv' and not only:
             sg = supergraph(F, b['id'], opaque=opq, tag='c16')
             paths = [p for p in PathEnum(sg).run() if not p.panicked]
             ok = all(p.ret is not None and derives_from(p.ret, lambda x: x[0] == 'call' and roles.get(x[2]) == 'peek_used') for p in paths) and bool(paths)
-            R.check(ok, 'S4', '%s:readiness' % b['id'], fn_site(F, b['id']), 'can_recv derives from peek_used', 'can_recv does not reflect the used ring')
+            R.check(ok, rule, '%s:readiness' % b['id'], fn_site(F, b['id']), 'can_recv derives from peek_used', 'can_recv does not reflect the used ring')
     for b in F.bodies.values():
-        if b.get('impl_adt') == RAW and b['name'] == 'can_send':
+        if b.get('impl_adt') == RAW and b['name'] == 'can_send' and not only:
             sg = supergraph(F, b['id'], opaque=opq, tag='c16')
             paths = [p for p in PathEnum(sg).run() if not p.panicked]
             bad = None
@@ -297,4 +297,4 @@ def s4_custody(F, R, M, roles):
                     break
                 if got != [int(av >= 2)]:
                     bad = '%d free descriptors -> can_send = %s' % (av, got)
-            R.check(bad is None, 'S4', '%s:readiness' % b['id'], fn_site(F, b['id']), 'can_send <=> 2 descriptors (header + frame) are free', 'can_send: %s' % bad)
+            R.check(bad is None, rule, '%s:readiness' % b['id'], fn_site(F, b['id']), 'can_send <=> 2 descriptors (header + frame) are free', 'can_send: %s' % bad)
